@@ -133,7 +133,7 @@ Lemma fc_unflatten s : forward_call "unflatten" s =
      end).
 Proof. reflexivity. Qed.
 
-Lemma rv_unflatten s sh n : reverse "unflatten" s sh n =
+Lemma rv_unflatten fx s sh n : reverse_with fx "unflatten" s sh n =
     (let nd := zlen sh in
      let ds :=
       match pos s with
@@ -145,13 +145,16 @@ Lemma rv_unflatten s sh n : reverse "unflatten" s sh n =
       end in
     match ds with
     | None => CRaise
-    | Some (d, sz) => let d0 := if d <? 0 then nd + d else d in CFlatten d0 (d0 + zlen sz - 1)
+    | Some (d, sz) =>
+        let d0 := if d <? 0 then nd + d else d in
+        if fx && (zlen sz =? 1) then CIdentity else CFlatten d0 (d0 + zlen sz - 1)
     end).
 Proof. reflexivity. Qed.
 
-Lemma spell_unflatten s c sh n : forward_call "unflatten" s = Some c ->
+Lemma spell_unflatten fx s c sh n : forward_call "unflatten" s = Some c ->
   exists d sz, c = CUnflatten d sz
-    /\ reverse "unflatten" s sh n = CFlatten (norm d (zlen sh)) (norm d (zlen sh) + zlen sz - 1).
+    /\ reverse_with fx "unflatten" s sh n
+       = (if fx && (zlen sz =? 1) then CIdentity else CFlatten (norm d (zlen sh)) (norm d (zlen sh) + zlen sz - 1)).
 Proof.
   rewrite fc_unflatten, rv_unflatten. destruct (negb _); [discriminate|].
   dpos s; intros H; dmatch H; injection H as <-; eexists _, _; (split; [reflexivity|]); reflexivity.
@@ -205,7 +208,51 @@ Proof.
   dpos s; intros H; dmatch H; injection H as <-; eauto.
 Qed.
 
-Definition elem_ops : list string := ["transpose"; "permute"; "view"; "flatten"; "squeeze"; "unsqueeze"].
+Definition unflat_len (c : icall) : nat := match c with CUnflatten _ sz => List.length sz | _ => 0 end.
+
+(* the code before the repair of D201: correct exactly when the size has at least two entries *)
+Theorem elem_roundtrip_unflatten_unrepaired_partial : forall s sh c ysh,
+  nonneg sh -> forward_call "unflatten" s = Some c -> shape_of c sh = Some ysh -> (2 <= unflat_len c)%nat ->
+  undoes c (reverse_with false "unflatten" s sh (zlen ysh)) sh ysh.
+Proof.
+  intros s sh c ysh Hnn Hf Hs Hl. destruct (spell_unflatten false s c sh (zlen ysh) Hf) as [d [sz [-> ->]]]. cbn in Hl.
+  cbn [andb].
+  assert (Hs' := Hs). cbn [shape_of] in Hs'. destruct (unflatten_dims sh d sz) as [[d' sz']|] eqn:Ed; [|discriminate].
+  assert (Ed' : d' = norm d (zlen sh)).
+  { unfold unflatten_dims in Ed. destruct (in_range d (zlen sh)); [|discriminate]. destruct sz; [discriminate|].
+    destruct (infer _ _); [|discriminate]. now injection Ed as <- _. }
+  rewrite <- Ed'. eapply undoes_unflatten; eassumption.
+Qed.
+
+Theorem elem_roundtrip_unflatten_unrepaired_refuted : exists s sh c ysh,
+  nonneg sh /\ forward_call "unflatten" s = Some c /\ shape_of c sh = Some ysh
+  /\ shape_of (reverse_with false "unflatten" s sh (zlen ysh)) ysh = None.
+Proof.
+  exists {| pos := [VInt 0; VInts [6]]; kw := [] |}, [6; 4], (CUnflatten 0 [6]), [6; 4].
+  repeat split; try reflexivity. repeat constructor; lia.
+Qed.
+
+(* the repaired code: every size *)
+Theorem elem_roundtrip_unflatten : forall s sh c ysh,
+  nonneg sh -> forward_call "unflatten" s = Some c -> shape_of c sh = Some ysh ->
+  undoes c (reverse "unflatten" s sh (zlen ysh)) sh ysh.
+Proof.
+  intros s sh c ysh Hnn Hf Hs. unfold reverse.
+  destruct (spell_unflatten fixed_D201 s c sh (zlen ysh) Hf) as [d [sz [-> ->]]].
+  change (fixed_D201 && (zlen sz =? 1)) with (zlen sz =? 1).
+  destruct (zlen sz =? 1) eqn:E1.
+  - destruct sz as [|z [|? ?]]; try (unfold zlen in E1; cbn [List.length] in E1; lia). now apply undoes_unflatten1.
+  - assert (Hs' := Hs). cbn [shape_of] in Hs'. destruct (unflatten_dims sh d sz) as [[d' sz']|] eqn:Ed; [|discriminate].
+    assert (Hl : (2 <= List.length sz)%nat).
+    { unfold unflatten_dims in Ed. destruct (in_range d (zlen sh)); [|discriminate]. destruct sz as [|? [|? ?]]; try discriminate.
+      cbn [List.length]. lia. }
+    assert (Ed' : d' = norm d (zlen sh)).
+    { unfold unflatten_dims in Ed. destruct (in_range d (zlen sh)); [|discriminate]. destruct sz; [discriminate|].
+      destruct (infer _ _); [|discriminate]. now injection Ed as <- _. }
+    rewrite <- Ed'. eapply undoes_unflatten; eassumption.
+Qed.
+
+Definition elem_ops : list string := ["transpose"; "permute"; "view"; "flatten"; "unflatten"; "squeeze"; "unsqueeze"].
 
 (* the full statement, for one operation name *)
 Definition elem_roundtrip_for (op : string) : Prop :=
@@ -215,7 +262,7 @@ Definition elem_roundtrip_for (op : string) : Prop :=
 Theorem elem_roundtrip : forall op, In op elem_ops -> elem_roundtrip_for op.
 Proof.
   intros op Hin s sh c ysh Hnn Hf Hs.
-  cbn in Hin. destruct Hin as [<-|[<-|[<-|[<-|[<-|[<-|[]]]]]]].
+  cbn in Hin. destruct Hin as [<-|[<-|[<-|[<-|[<-|[<-|[<-|[]]]]]]]].
   - destruct (spell_transpose s c sh (zlen ysh) Hf) as [a [b [-> ->]]]. now apply undoes_transpose.
   - destruct (spell_permute s c sh (zlen ysh) Hf) as [l [-> ->]].
     assert (Hs' := Hs). cbn [shape_of] in Hs'. destruct (perm_dims l (zlen sh)) as [p|] eqn:Ep; [|discriminate].
@@ -228,29 +275,7 @@ Proof.
   - destruct (spell_flatten s c sh (zlen ysh) Hf) as [a [b [-> ->]]].
     assert (Hs' := Hs). cbn [shape_of] in Hs'. destruct (flatten_dims a b (zlen sh)) as [[a' b']|] eqn:Ed; [|discriminate].
     destruct (flatten_dims_ok _ _ _ _ _ Ed) as [<- [<- _]]. eapply undoes_flatten; eassumption.
+  - now apply elem_roundtrip_unflatten.
   - destruct (spell_squeeze s c sh (zlen ysh) Hf) as [d [-> ->]]. now apply undoes_squeeze.
   - destruct (spell_unsqueeze s c sh (zlen ysh) Hf) as [d [-> ->]]. now apply undoes_unsqueeze.
-Qed.
-
-(* unflatten: the reverse flattens dims d .. d+len(size)-1, which tensordict's flatten refuses when len(size) = 1 *)
-Definition unflat_len (c : icall) : nat := match c with CUnflatten _ sz => List.length sz | _ => 0 end.
-
-Theorem elem_roundtrip_unflatten_partial : forall s sh c ysh,
-  nonneg sh -> forward_call "unflatten" s = Some c -> shape_of c sh = Some ysh -> (2 <= unflat_len c)%nat ->
-  undoes c (reverse "unflatten" s sh (zlen ysh)) sh ysh.
-Proof.
-  intros s sh c ysh Hnn Hf Hs Hl. destruct (spell_unflatten s c sh (zlen ysh) Hf) as [d [sz [-> ->]]]. cbn in Hl.
-  assert (Hs' := Hs). cbn [shape_of] in Hs'. destruct (unflatten_dims sh d sz) as [[d' sz']|] eqn:Ed; [|discriminate].
-  assert (Ed' : d' = norm d (zlen sh)).
-  { unfold unflatten_dims in Ed. destruct (in_range d (zlen sh)); [|discriminate]. destruct sz; [discriminate|].
-    destruct (infer _ _); [|discriminate]. now injection Ed as <- _. }
-  rewrite <- Ed'. eapply undoes_unflatten; eassumption.
-Qed.
-
-Theorem elem_roundtrip_unflatten_refuted : exists s sh c ysh,
-  nonneg sh /\ forward_call "unflatten" s = Some c /\ shape_of c sh = Some ysh
-  /\ shape_of (reverse "unflatten" s sh (zlen ysh)) ysh = None.
-Proof.
-  exists {| pos := [VInt 0; VInts [6]]; kw := [] |}, [6; 4], (CUnflatten 0 [6]), [6; 4].
-  repeat split; try reflexivity. repeat constructor; lia.
 Qed.
